@@ -178,8 +178,10 @@ class C10(core.Check):
         "Theorems: face re-indexing for all faces / counts / distances, addressing on all sides, corner pairs and corners, the "
         "tables against the hexahedron and each other, outward normals for every affine image of the cube, first-minimum / "
         "first-maximum choice of get_closest_side / get_normal_face. Not theorems: float rounding of norms and cosines (the "
-        "generator keeps a margin), python's deque.rotate beyond counts -9..9 (the model has period 4), Extrude by a scalar "
-        "amount and Connector's alignment measure (square roots; oracle only), which corner of a Connector becomes which (C18)."
+        "generator keeps a margin), python's deque.rotate for counts other than the 35 executed ones (the model equals the table "
+        "function at count mod 4 for every count), rotations / scalar extrusions whose cosine, sine or normal length is irrational "
+        "(theorems hold through witnesses, correspondence only on rational instances), Connector's alignment measure (oracle on the "
+        "choice of faces only), which corner of a Connector becomes which (C18), outward normals of revolved blocks."
     )
     assumptions = [
         "the face/operation model mirrors python list semantics (deque.rotate, list.reverse, stable sort) — validated by correspondence",
